@@ -21,6 +21,11 @@ JOBS = [
         replay_ghost=[ANGNORM_GHOST % 'lon'], timeout=300, replay_domain=EXACT_LON, description='GARS encoder'),
     Job('Geohash.Forward', 'Geohash::Forward', ['C18', 'C13', 'C14'], replace=['Math::AngNormalize'], unwind=92,
         replay_ghost=[ANGNORM_GHOST % 'lon'], timeout=300, replay_domain=EXACT_LON, description='Geohash encoder'),
+    Job('Georef.Reverse', 'Georef::Reverse', ['C18', 'C13', 'C14'], replace=[LOOKUP], unwind=12, timeout=300, description='Georef decoder',
+        cases=[('len_le7', 'in_georef.len <= 7')] + [('len%d' % k, 'in_georef.len == %d' % k) for k in range(8, 27, 2)] +
+              [('len_odd', 'in_georef.len >= 9 && in_georef.len % 2 == 1'), ('len_gt26', 'in_georef.len > 26 && in_georef.len % 2 == 0')]),
+    Job('GARS.Reverse', 'GARS::Reverse', ['C18', 'C13', 'C14'], replace=[LOOKUP], unwind=5, timeout=300, description='GARS decoder'),
+    Job('Geohash.Reverse', 'Geohash::Reverse', ['C18', 'C13', 'C14'], replace=[LOOKUP], unwind=19, timeout=300, description='Geohash decoder'),
 ]
 
 
